@@ -116,10 +116,14 @@ class PythonMethodAnalyzer:  # thailint: ignore[srp]
             item: Item in the class body
             class_name: Name of the containing class
         """
+        if isinstance(item, ast.ClassDef):
+            self._process_nested_class(item)
+            return
         if isinstance(item, ast.FunctionDef):
             self._check_method(item, class_name)
-        elif isinstance(item, ast.ClassDef):
-            self._process_nested_class(item)
+        # Classes defined inside a method (or another statement) of this class
+        for child in ast.iter_child_nodes(item):
+            self._visit_node(child)
 
     def _process_nested_class(self, class_node: ast.ClassDef) -> None:
         """Process a nested class, avoiding duplicates.
